@@ -18,6 +18,7 @@ ASSUMPTIONS_COMMON = [
     "A2: Python semantics of the modelled constructs and the rewrite table of sa/terms.py (accepted idioms)",
     "A3: no run-time monkeypatching; analysability preconditions (no exec/eval/metaclass/__getattr__/star import) re-checked on this run",
     "A4: SHA-256 and HKDF implementations conform to their RFCs",
+    "A5: an entropy function called with n returns a bytes object of exactly n bytes (the contract of os.urandom, which the library documents for entropy_f)",
     "no repository code was imported or executed: all facts come from the ast of /repo/src/spake2",
 ]
 
